@@ -62,6 +62,7 @@ class BaseProp:
         """property-specific steps after the generic ones (may append to self.broken / self.violations)"""
 
     n_quick, n_thorough = 300, 5000
+    model_shard, model_rounds = 400, 8
 
     # ---- flow ----
     def run(self):
@@ -135,7 +136,7 @@ class BaseProp:
         self.impl_results = impl
         self.case_by_id = {c.id: c for c in cases}
         mcases = [c for c in cases if self.model_applicable(c)]
-        model, mstats = vlib.run_model(mcases, self.pid, extra_imports=self.extra_imports, oracle_exe=exe)
+        model, mstats = vlib.run_model(mcases, self.pid, extra_imports=self.extra_imports, oracle_exe=exe, shard=self.model_shard, max_rounds=self.model_rounds)
         self.cov['model_stats'] = mstats
         agree = dis = merr = 0
         for c in mcases:
